@@ -3,6 +3,7 @@ package verifharness
 import (
 	"bufio"
 	"bytes"
+	"crypto/tls"
 	"encoding/base64"
 	"fmt"
 	"net"
@@ -33,12 +34,21 @@ type httpCase struct {
 }
 
 type httpWorld struct {
-	w         *World
-	mu        sync.Mutex
-	cases     map[int]*httpCase
-	tunnels   map[string]*httpTunnel
-	twoRoutes bool // a second proxy on the same host, routed by http user "alice", with its own backend
+	w       *World
+	mu      sync.Mutex
+	cases   map[int]*httpCase
+	tunnels map[string]*httpTunnel
+	// plugin worlds
+	userTLS    *tls.Config // users speak TLS to the public endpoint
+	backendTLS *tls.Config // the backend speaks TLS
+	xffMode    int         // 0: chain + user's address, 1: not checked
+	// the plugin terminates HTTP on a work connection wrapped in the encryption/compression stream readers
+	pluginStreamWrapped bool
+	frontVhost          bool // the http vhost of frps (with its idle work-connection pool) is in front of the plugin
+	twoRoutes           bool // a second proxy on the same host, routed by http user "alice", with its own backend
 }
+
+const knownKeepAliveSig = "plugin-keepalive-broken-by-latched-read-timeout-with-encryption-or-compression"
 
 func (hw *httpWorld) viol(oracle, sig, f string, a ...any) { hw.w.Violate("C02", oracle, sig, f, a...) }
 
@@ -353,6 +363,9 @@ func (hw *httpWorld) genCase(id int, r *simnet.Rand, maxBody int) *httpCase {
 
 func (hw *httpWorld) backendConn(conn net.Conn, which string) {
 	defer conn.Close()
+	if hw.backendTLS != nil {
+		conn = tls.Server(conn, hw.backendTLS)
+	}
 	br := bufio.NewReaderSize(conn, 64<<10)
 	for {
 		m, err := readRawMsg(br, true, false)
@@ -412,19 +425,34 @@ func (hw *httpWorld) backendConn(conn net.Conn, which string) {
 
 func (hw *httpWorld) userConn(addr, ip string, cs []*httpCase, rewriteHost string, setReq, setResp bool) {
 	w := hw.w
-	var conn *simnet.Conn
+	var conn net.Conn
 	var br *bufio.Reader
+	onConn := 0 // requests already answered on the current connection
+cases:
 	for _, c := range cs {
 		if conn == nil {
+			onConn = 0
 			var err error
-			conn, err = simnet.DialFrom(ip, addr, 10*time.Second)
+			raw, err := simnet.DialFrom(ip, addr, 10*time.Second)
 			if err != nil {
 				hw.viol("connect", "vhost-port-refused", "dial %s: %v", addr, err)
 				return
 			}
+			conn = raw
+			if hw.userTLS != nil {
+				tc := tls.Client(raw, hw.userTLS)
+				raw.SetDeadline(time.Now().Add(30 * time.Second))
+				if err := tc.Handshake(); err != nil {
+					hw.viol("connect", "tls-handshake-failed", "TLS handshake with the https endpoint failed: %v", err)
+					raw.Close()
+					return
+				}
+				raw.SetDeadline(time.Time{})
+				conn = tc
+			}
 			br = bufio.NewReaderSize(conn, 64<<10)
 		}
-		c.user = conn.LocalAddr().(*net.TCPAddr).IP.String()
+		c.user = ip
 		ur := simnet.NewRand(w.In.Seed, fmt.Sprintf("uchunk%d", c.id))
 		out := c.req.encode(true, func() int { return ur.Range(1, 5000) })
 		// independent well-formedness filter
@@ -437,6 +465,12 @@ func (hw *httpWorld) userConn(addr, ip string, cs []*httpCase, rewriteHost strin
 				n = len(out)
 			}
 			if _, err := conn.Write(out[:n]); err != nil {
+				if hw.pluginStreamWrapped && onConn > 0 {
+					hw.viol("response", knownKeepAliveSig, "case %d: request %d on a keep-alive connection could not be written: %v", c.id, onConn+1, err)
+					conn.Close()
+					conn = nil
+					continue cases
+				}
 				hw.viol("request", "user-write-failed", "case %d: %v", c.id, err)
 				return
 			}
@@ -444,12 +478,23 @@ func (hw *httpWorld) userConn(addr, ip string, cs []*httpCase, rewriteHost strin
 		}
 		conn.SetReadDeadline(time.Now().Add(5 * time.Minute))
 		got, err := readRawMsg(br, false, c.head)
+		if err != nil && got == nil && hw.pluginStreamWrapped && onConn > 0 {
+			// known finding (DESIGN.md section 18): net/http's server aborts its idle background read with a read deadline;
+			// golib's crypto.Reader / snappy's Reader latch that timeout, the plugin's server then closes the connection
+			hw.viol("response", knownKeepAliveSig, "case %d (%s %s): request %d on a keep-alive connection through an http plugin over an encrypted/compressed work connection got no response: %v", c.id, c.req.Method, c.req.Target, onConn+1, err)
+			conn.Close()
+			conn = nil // the remaining requests go on with a fresh connection
+			continue
+		}
 		if err != nil && got == nil {
 			hw.viol("response", "no-response", "case %d (%s %s, body %d chunked=%v): %v", c.id, c.req.Method, c.req.Target, len(c.req.Body), c.req.Chunked, err)
 			conn.Close()
 			return
 		}
+		w.Net.Logf("case %d %s body=%d chunked=%v -> backend answers %d body=%d chunked=%v nolen=%v; user got %d conn=%q", c.id, c.req.Method, len(c.req.Body), c.req.Chunked,
+			c.resp.Status, len(c.resp.Body), c.resp.Chunked, c.resp.NoLen, got.Status, strings.Join(got.get("Connection"), ","))
 		hw.checkCase(c, got, rewriteHost, setReq, setResp)
+		onConn++
 		closeAfter := got.NoLen || strings.EqualFold(strings.Join(got.get("Connection"), ","), "close")
 		if closeAfter {
 			conn.Close()
@@ -468,6 +513,12 @@ func (hw *httpWorld) checkCase(c *httpCase, got *rawMsg, rewriteHost string, set
 	seen := c.seen
 	hw.mu.Unlock()
 	desc := fmt.Sprintf("case %d (%s %s)", c.id, c.req.Method, c.req.Target)
+	if seen == nil && hw.pluginStreamWrapped && hw.frontVhost && got.Status == 404 {
+		// same known finding seen from the other side: the vhost of frps reuses an idle work connection that the
+		// plugin's server has already given up; a request that may not be retried is answered with the not-found page
+		hw.viol("response", knownKeepAliveSig, "%s: sent over a pooled work connection that the plugin's server had closed; user got the not-found page", desc)
+		return
+	}
 	if seen == nil {
 		hw.viol("request", "request-not-delivered", "%s: the backend never saw it; user got status %d", desc, got.Status)
 		return
@@ -524,7 +575,7 @@ func (hw *httpWorld) checkCase(c *httpCase, got *rawMsg, rewriteHost string, set
 	if c.xff != "" {
 		wantXFF = c.xff + ", " + c.user
 	}
-	if x := strings.Join(seen.get("X-Forwarded-For"), ", "); x != wantXFF {
+	if x := strings.Join(seen.get("X-Forwarded-For"), ", "); hw.xffMode == 0 && x != wantXFF {
 		hw.viol("request", "x-forwarded-for-wrong", "%s: backend saw X-Forwarded-For %q, want %q", desc, x, wantXFF)
 	}
 	// response
